@@ -112,3 +112,19 @@ CLAIMS["C13"] = (
     "6/C13", TRUSTED + "; rounding accuracy of transcendental nodes at arbitrary arguments is not decided "
     "(TLA+ has no reals); transcendental outputs are only compared across evaluators",
     "TLA+ state machine of the evaluator object + behaviours replayed + TLC trace validation")
+
+CLAIMS["C01"] = (
+    "model_checking",
+    "one universe of about 120 objects of every kind named by the property, with boundary numbers (signed zeros, "
+    "NaN and infinite doubles, complex doubles with such parts, equal values of different kinds) and alternative "
+    "construction paths; the library's eq/hash/container observations over all ordered pairs and triples are "
+    "validated by TLC against the relational axioms of module Order (eq equivalence, eq implies hash, cached hash "
+    "stable and equal to __hash__(), set_basic/umap_basic_num/unordered_set hold one entry per eq-class)",
+    "6/C01", TRUSTED + "; polynomial classes enter this universe through the polynomial checks only",
+    "TLA+ relational model of eq/hash + TLC validation of recorded relation matrices")
+CLAIMS["C02"] = (
+    "model_checking",
+    "same universe; TLC validates over all pairs and triples that __cmp__ is in {-1,0,1}, zero exactly on eq, "
+    "antisymmetric, transitive, that RCPBasicKeyLess is a strict weak order with incomparability = eq, and that "
+    "set_basic has the same sorted iteration order for 8 insertion permutations",
+    "6/C02", TRUSTED, "TLA+ relational model of the ordering + TLC validation of recorded relation matrices")
